@@ -27,7 +27,7 @@ REPO = Path(os.environ.get("VERIF_REPO", "/repo"))
 WORK = Path(os.environ.get("VERIF_WORK", str(VERIF / "work")))
 WS = WORK / "ws"
 HARNESS_DIR = VERIF / "harness"
-NSLOTS = int(os.environ.get("VERIF_SLOTS", "6"))
+NSLOTS = int(os.environ.get("VERIF_SLOTS", "5"))
 MEM_BUDGET_GB = float(os.environ.get("VERIF_MEM_GB", "54"))
 MEM_CAP_GB = {"quick": 10.0, "thorough": 24.0}
 ENV = dict(os.environ, CARGO_NET_OFFLINE="true", CARGO_TERM_COLOR="never")
@@ -94,6 +94,7 @@ def scan_harnesses():
                     harnesses.append(Harness(
                         name=fn, file=path, crate=att["crate"], attach=att["file"],
                         features=att.get("features", ""),
+                        cbmc_args=pending.get("cbmc_args", ""),
                         props=pending["prop"].split(","), tier=pending.get("tier", "quick"),
                         cap=int(pending.get("cap", "600")), mem=float(pending.get("mem", "0")),
                         bound=pending.get("bound", ""), fns=pending.get("fns", ""),
@@ -133,6 +134,10 @@ def snapshot(files):
         subprocess.run(
             ["rsync", "-a", "--delete", "--exclude", "/target", "--exclude", "/.git",
              "--exclude-from", str(excl), f"{REPO}/", f"{WS}/"], check=True)
+        # harness files are copied next to the snapshot: a check compiles the harness text as it
+        # was when the check started, not what is being edited meanwhile
+        hcopy = WORK / "harness"
+        subprocess.run(["rsync", "-a", "--delete", "--checksum", f"{HARNESS_DIR}/", f"{hcopy}/"], check=True)
         missing = []
         for target, atts in by_target.items():
             src = REPO / target
@@ -149,12 +154,13 @@ def snapshot(files):
                 cond = "kani"
                 if att.get("features"):
                     cond = "all(kani, " + ", ".join(f'feature = "{x}"' for x in att["features"].split(",")) + ")"
-                body += f'#[cfg({cond})] #[path = "{att["path"]}"] mod {att["mod"]};\n'
-            st = src.stat()
+                hp = WORK / "harness" / Path(att["path"]).relative_to(HARNESS_DIR)
+                body += f'#[cfg({cond})] #[path = "{hp}"] mod {att["mod"]};\n'
+            # rewritten only when the text differs (new /repo content or new attach lines), so
+            # its mtime moves exactly when cargo has to rebuild
             if not dst.exists() or dst.read_text() != body:
                 dst.parent.mkdir(parents=True, exist_ok=True)
                 dst.write_text(body)
-            os.utime(dst, ns=(st.st_atime_ns, st.st_mtime_ns))
         (WS / ".cargo").mkdir(exist_ok=True)
         cfg = WS / ".cargo" / "config.toml"
         want = "[net]\noffline = true\n"
@@ -289,6 +295,13 @@ def parse_kani(out):
 
 def kani_cmd(h, target_dir, extra=()):
     feat = ["--features", h.features] if h.features else []
+    extra = list(extra)
+    if h.cbmc_args:
+        # --cbmc-args must come last and only once
+        if "--cbmc-args" in extra:
+            extra += h.cbmc_args.split()
+        else:
+            extra += ["-Z", "unstable-options", "--cbmc-args", *h.cbmc_args.split()]
     return ["cargo", "kani", "-p", h.crate, *feat, "-Z", "stubbing", "--harness", h.name,
             "--target-dir", str(target_dir), *extra]
 
@@ -299,10 +312,20 @@ def run_harness(h, tier, logdir):
     t0 = time.time()
     with Slot() as tdir:
         logfile = logdir / f"{h.name}.log"
-        status, out, rc, peak = run_cmd(kani_cmd(h, tdir), WS, cap, mem, logfile)
+        # phase 1: compile the crate and generate the harness's goto program (not under the
+        # solver's time cap: a cold slot builds the whole dependency tree here)
+        b0 = time.time()
+        bstatus, bout, brc, _ = run_cmd(kani_cmd(h, tdir, ["--only-codegen"]), WS, 5400, 40,
+                                        logdir / f"{h.name}.build.log")
+        build_s = time.time() - b0
+        if bstatus != "ok" or brc != 0:
+            status, out, rc, peak = bstatus, bout, brc, 0.0
+        else:
+            # phase 2: symbolic execution + SAT, under the harness's caps
+            status, out, rc, peak = run_cmd(kani_cmd(h, tdir), WS, cap, mem, logfile)
     res = parse_kani(out)
     res.update(name=h.name, wall_s=round(time.time() - t0, 1), run_status=status, rc=rc,
-               peak_rss_gb=round(peak, 2), log=str(logfile))
+               peak_rss_gb=round(peak, 2), log=str(logfile), build_s=round(build_s, 1))
     if status != "ok":
         res["outcome"] = "inconclusive"
         res["reason"] = f"{status} (cap {cap}s / {mem} GB)"
@@ -417,7 +440,8 @@ def replay_counterexample(h, prop, res, logdir, known_descs=()):
         injected = hsrc + "\n#[cfg(test)]\nmod verif_playback {\n    use super::*;\n" + tests_src + "\n}\n"
         rfile.write_text("\n".join(header) + "\n" + injected)
         tgt = rws / h.attach
-        tgt.write_text(tgt.read_text().replace(f'"{h.file}"', f'"{rfile}"'))
+        hp = WORK / "harness" / Path(h.file).relative_to(HARNESS_DIR)
+        tgt.write_text(tgt.read_text().replace(f'"{hp}"', f'"{rfile}"'))
         reproduced = []
         details = []
         for name, desc, _ in tests:
@@ -632,8 +656,10 @@ def write_evidence(prop, tier, seed, results, missing, wall, violations, known_l
 
 
 def setup():
-    """Warm every Kani target dir: build the dependency tree once in slot 0 (one cheap
-    --only-codegen run per crate that carries harnesses), then copy it to the other slots."""
+    """Warm every Kani target dir: each slot builds the dependency tree of every crate that
+    carries harnesses (one --only-codegen run per crate), slots in parallel. Target dirs are
+    not copied between slots: a copied cargo target dir intermittently failed with
+    "can't find crate" (absolute paths in build-script outputs)."""
     t0 = time.time()
     files, harnesses = scan_harnesses()
     missing = snapshot(files)
@@ -645,21 +671,31 @@ def setup():
             crates.append((h.crate, h))
     logdir = WORK / "logs" / "setup"
     logdir.mkdir(parents=True, exist_ok=True)
-    rc_all = 0
-    for crate, h in crates:
-        with Slot() as tdir:
-            cmd = kani_cmd(h, tdir, ["--only-codegen"])
-            status, out, rc, _ = run_cmd(cmd, WS, 3600, 40, logdir / f"{crate}.log")
-        log(f"setup: {crate}: {status} rc={rc} ({time.time() - t0:.0f}s)")
-        if rc != 0:
-            rc_all = 1
-            log("\n".join(out.splitlines()[-30:]))
-    src = WORK / "target-0"
-    for i in range(1, NSLOTS):
-        dst = WORK / f"target-{i}"
-        subprocess.run(["rsync", "-a", "--delete", f"{src}/", f"{dst}/"], check=False)
-    log(f"setup: done in {time.time() - t0:.0f}s, slots={NSLOTS}")
-    return rc_all
+    env_jobs = str(max(2, (os.cpu_count() or 8) // 2))
+    ENV["CARGO_BUILD_JOBS"] = env_jobs
+    failed = []
+
+    def warm(i):
+        tdir = WORK / f"target-{i}"
+        fh = open(WORK / f"slot-{i}.lock", "w")
+        fcntl.flock(fh, fcntl.LOCK_EX)
+        try:
+            for crate, h in crates:
+                status, out, rc, _ = run_cmd(kani_cmd(h, tdir, ["--only-codegen"]), WS, 5400, 40,
+                                             logdir / f"slot{i}-{crate}.log")
+                log(f"setup: slot {i} {crate}: {status} rc={rc} ({time.time() - t0:.0f}s)")
+                if rc != 0:
+                    failed.append((i, crate))
+                    log("\n".join(out.splitlines()[-25:]))
+        finally:
+            fcntl.flock(fh, fcntl.LOCK_UN)
+            fh.close()
+
+    with ThreadPoolExecutor(max_workers=NSLOTS) as ex:
+        list(ex.map(warm, range(NSLOTS)))
+    ENV.pop("CARGO_BUILD_JOBS", None)
+    log(f"setup: done in {time.time() - t0:.0f}s, slots={NSLOTS}, failed={failed}")
+    return 1 if failed else 0
 
 
 def main(argv):
@@ -675,6 +711,26 @@ def main(argv):
     seed = int(os.environ.get("VERIF_SEED", "0") or 0)
     if a.prop == "setup":
         return setup()
+    if a.prop == "compile":
+        # fast type-check of every harness module of the crates named with --only
+        files, harnesses = scan_harnesses()
+        snapshot(files)
+        rc = 0
+        for crate in a.only or sorted({h.crate for h in harnesses}):
+            hs = [h for h in harnesses if h.crate == crate]
+            feats = sorted({h.features for h in hs if h.features})
+            with Slot() as tdir:
+                cmd = ["cargo", "kani", "-p", crate, *(["--features", ",".join(feats)] if feats else []), "-Z", "stubbing",
+                       "-Z", "unstable-options", "--no-codegen", "--target-dir", str(tdir)]
+                (WORK / "logs").mkdir(exist_ok=True)
+                status, out, r, _ = run_cmd(cmd, WS, 3600, 40, WORK / "logs" / f"compile-{crate}.log")
+            errs = [l for l in out.splitlines() if l.startswith("error")]
+            log(f"compile {crate}: rc={r} errors={len(errs)}")
+            if r != 0:
+                rc = 2
+                m = re.search(r"^error", out, re.M)
+                log(out[m.start():m.start() + 8000] if m else out[-3000:])
+        return rc
     if a.list:
         _, hs = scan_harnesses()
         for h in hs:
